@@ -118,6 +118,9 @@ func (r *responder) react(e *xt.Node) {
 			return
 		}
 		pol := r.get(kind)
+		r.mu.Lock()
+		r.lastID[kind] = id
+		r.mu.Unlock()
 		r.note("library sent <%s/> id=%s: peer policy %q", kind, id, pol)
 		switch pol {
 		case "silent":
@@ -223,7 +226,7 @@ func genHelpers(t *rapid.T) hcase {
 		c.carrier = rapid.SampledFrom([]string{"iq", "iq", "message"}).Draw(t, "carrier")
 		c.steps = append(c.steps, hstep{op: "open", pol: rapid.SampledFrom([]string{"accept", "accept", "accept", "accept", "refuse", "refuse-constraint", "refuse-unavailable", "refuse-bare", "silent"}).Draw(t, "openpol")})
 		for i := 0; i < n; i++ {
-			st := hstep{op: rapid.SampledFrom([]string{"write", "write", "peerdata", "read", "readwait", "peerclose", "close", "flush"}).Draw(t, "op")}
+			st := hstep{op: rapid.SampledFrom([]string{"write", "write", "peerdata", "read", "readwait", "peerclose", "close", "flush", "peerclose-during-write"}).Draw(t, "op")}
 			st.n = rapid.SampledFrom([]int{0, 1, 2, 3, 4, 5, 7, 10, 64}).Draw(t, "n")
 			st.flag = rapid.Bool().Draw(t, "flag")
 			st.pol = rapid.SampledFrom([]string{"ack", "ack", "ack", "silent", "error"}).Draw(t, "pol")
@@ -575,6 +578,71 @@ func checkHelpers(t interface {
 				if pending < 0 {
 					pending = 0
 				}
+			case "peerclose-during-write":
+				// the application is inside Write/Flush, waiting (without any
+				// deadline) for the acknowledgement of a data packet, when the
+				// peer's <close/> for the stream arrives; the peer acknowledges
+				// the packet only afterwards
+				ic, isIBB := conn.(*ibb.Conn)
+				if conn == nil || !isIBB || c.carrier != "iq" || ended {
+					continue
+				}
+				rsp.set("data", "silent")
+				rsp.mu.Lock()
+				delete(rsp.lastID, "data")
+				rsp.mu.Unlock()
+				_ = conn.SetDeadline(time.Time{})
+				wdone := make(chan string, 1)
+				go func() {
+					wdone <- ev.Guard(func() {
+						_, _ = ic.Write([]byte("unacknowledged"))
+						_ = ic.Flush()
+					})
+				}()
+				dataID := ""
+				for k := 0; k < 3000 && dataID == ""; k++ {
+					rsp.mu.Lock()
+					dataID = rsp.lastID["data"]
+					rsp.mu.Unlock()
+					if dataID == "" {
+						time.Sleep(time.Millisecond)
+					}
+				}
+				if dataID == "" {
+					// nothing was sent (the stream is closed for writing already)
+					select {
+					case p := <-wdone:
+						if p != "" {
+							fail("%s: Write/Flush panicked: %s", what, p)
+						}
+					case <-time.After(waitLong):
+						stalled(what + ": Write/Flush neither sent a packet nor returned")
+						return
+					}
+					continue
+				}
+				id := fmt.Sprintf("pcw%d", i)
+				sv.Feed(`<iq xmlns="` + ns + `" type="set" id="` + id + `" from="` + peerJID.String() + `" to="test@example.net"><close xmlns="http://jabber.org/protocol/ibb" sid="` + psid + `"/></iq>`)
+				if !answered(id) {
+					stalled(what + ": the peer's <close/>, sent while a Write was waiting for its acknowledgement, was not answered")
+					return
+				}
+				logf("%s -> the peer's <close/> was answered (%s)", what, lastReplyType)
+				if lastReplyType == "result" {
+					ended = true
+				}
+				// now the late acknowledgement
+				sv.Feed(`<iq xmlns="` + ns + `" type="result" id="` + dataID + `"/>`)
+				select {
+				case p := <-wdone:
+					if p != "" {
+						fail("%s: Write/Flush panicked: %s", what, p)
+					}
+				case <-time.After(waitLong):
+					stalled(what + ": the Write/Flush that was waiting for its acknowledgement did not return after the acknowledgement arrived")
+					return
+				}
+				_ = conn.SetDeadline(time.Now().Add(1500 * time.Millisecond))
 			case "peerclose":
 				if conn == nil {
 					continue
